@@ -114,6 +114,16 @@ CLAIMED["C07"] = dict(
     note=FS_NOTE,
 )
 
+CLAIMED["C15"] = dict(
+    engine="symx",
+    technique="symbolic execution of txtar.Write (with filepath.Clean/Join from SSA) over a file-system model; entry names are arbitrary symbolic byte strings decided by z3",
+    text=("Claimed for Write (the part txtar-x is built on): for every entry name up to the length bound (all byte values: separators, '.', '..', empty and absolute segments) and pre-existing files, "
+          "every node created in the model lies strictly beneath the directory, no pre-existing file changes, names that a reference segment-stack normaliser classifies as absolute or escaping yield an error, "
+          "and on success each file holds exactly its entry's data. The txtar-c/txtar-x tree round trip is outside the claim."),
+    design_ref="DESIGN.md §4 C15",
+    note=FS_NOTE,
+)
+
 NOT_APPLICABLE = {
     "C20": "goproxytest's behaviour lives in net/http, archive/zip+flate, encoding/json (reflection) and directory walks; none is encodable by the SSA symbolic executor, and with them stubbed nothing solver-relevant remains (its once-per-key ingredient is par.Cache = C10)",
 }
